@@ -164,6 +164,8 @@ type sqlDB struct {
 
 var memDBCounter int
 
+var smallPages bool // set by the disk-full sub-test only
+
 func openSQL(sim *simrt.Sim, dir, journal string, memory bool, maxConns int, seed uint32) (*sqlDB, error) {
 	var dsn string
 	if memory {
@@ -177,6 +179,12 @@ func openSQL(sim *simrt.Sim, dir, journal string, memory bool, maxConns int, see
 		return nil, err
 	}
 	db.SetMaxOpenConns(maxConns)
+	if smallPages {
+		// must precede the creation of the first table
+		if _, err := db.Exec("pragma page_size = 512"); err != nil {
+			return nil, err
+		}
+	}
 	if memory {
 		db.SetMaxIdleConns(maxConns) // keep the shared in-memory database alive
 		db.SetConnMaxLifetime(0)
